@@ -76,6 +76,7 @@ def run(chk):
     mod.len = vf_len
     chk.section('_chop', chop_vertices, mod)
     chk.section('Frame.chop / FrameSequence.chop', chop_structure, mod)
+    chk.section('FrameSequence.__getitem__ / propagate_to', lookup_by_distance, mod)
     lemmas(chk)
     bounded_transmission(chk)
 
@@ -256,6 +257,50 @@ def chop_structure(chk, mod):
     chk.decided(f'{MOD}:FrameSequence.chop/result independent of the listing order (distinct distances)[6 orders]', results == {('src', 'src>near', 'src>near>mid', 'src>near>mid>far')}, detail=str(results))
 
 
+def lookup_by_distance(chk, mod):
+    """frames[d]: the LAST frame that is not beyond d (a chopper sitting exactly at d has acted on the neutrons that are at d),
+    propagated to d -- for every d at or after the first frame, in any length unit; frames[i] is the i-th frame;
+    FrameSequence.propagate_to appends the last frame propagated and keeps the others."""
+    chk.function(MOD, 'FrameSequence.__getitem__')
+    chk.function(MOD, 'FrameSequence.propagate_to')
+    ds = [R('frame_distance_0'), R('frame_distance_1'), R('frame_distance_2'), R('frame_distance_3')]
+    for i in range(4):
+        kit.INPUTS[f'frame_distance_{i}'] = 'real'
+
+    class Fr:
+        def __init__(self, k):
+            self.k = k
+            self.distance = Var(Buf(ds[k], NAMED['m'], F64, origin='argument', tag=f'frame{k}.distance'))
+
+        def propagate_to(self, distance):
+            return ('propagated', self.k, distance)
+    for n in (1, 2, 4):
+        frames = [Fr(k) for k in range(n)]
+        seq = mod.FrameSequence(list(frames))
+        ascending = [ds[k] <= ds[k + 1] for k in range(n - 1)]
+        mk = lambda: arg('lookup_distance', 'length', kind='real')
+        paths = chk.explore(lambda: seq[mk()], base=ascending + [mk().si >= ds[0]], catch=(Exception,))
+        d = mk()
+        ok = bool(paths) and all(p.kind == 'return' and isinstance(p.value, tuple) and p.value[0] == 'propagated' for p in paths)
+        chk.decided(f'{MOD}:FrameSequence.__getitem__/returns a propagated frame for every distance at or after the first frame[{n} frames]', ok,
+                    detail='; '.join(repr(p.value)[:120] for p in paths if p.kind != 'return')[:300])
+        if not ok:
+            continue
+        chk.decided(f'{MOD}:FrameSequence.__getitem__/every frame can be the answer[{n} frames]', {p.value[1] for p in paths} == set(range(n)),
+                    detail=str(sorted(p.value[1] for p in paths)))
+        for j, p in enumerate(paths):
+            k, to = p.value[1], p.value[2]
+            hy = hyps_of(p, ascending + [d.si >= ds[0]])
+            goal = z3.And(ds[k] <= d.si, *([d.si < ds[k + 1]] if k + 1 < n else []))
+            chk.prove(f'{MOD}:FrameSequence.__getitem__/answer is the last frame not beyond the distance[{n} frames,path{j}]', hy, goal)
+            chk.prove(f'{MOD}:FrameSequence.__getitem__/propagated to the requested distance[{n} frames,path{j}]', hy, to.si == d.si)
+        chk.decided(f'{MOD}:FrameSequence.__getitem__/integer index[{n} frames]', all(seq[i] is frames[i] for i in range(n)) and seq[-1] is frames[-1])
+        out = mod.FrameSequence.propagate_to(seq, 'D')
+        chk.decided(f'{MOD}:FrameSequence.propagate_to/appends the last frame propagated, keeps the others[{n} frames]',
+                    len(out.frames) == n + 1 and all(a is b for a, b in zip(out.frames, frames)) and out.frames[-1] == ('propagated', n - 1, 'D')
+                    and len(seq.frames) == n, detail=str(out.frames[-1]))
+
+
 def lemmas(chk):
     P = 'lemma/frames'
     t, lam, d1, d2 = R('t'), R('lam'), R('d1'), R('d2')
@@ -366,6 +411,22 @@ def transmission_failures(n, seed, limit=3):
             b = fs[0].propagate_to(sc.scalar(11.0, unit='m'))
             if not np.allclose(a.subframes[0].time.values, b.subframes[0].time.values, rtol=1e-13, atol=0):
                 prob = 'propagating in two steps differs from one step'
+        if prob is None and chs:
+            # a lookup exactly at a chopper (a monitor mounted at it, a final distance equal to the last chopper) sees the chopped frame
+            for c in chs:
+                at = [f for f in out.frames if f.distance.value == c.distance.value][-1]
+                for item in (c.distance, c.distance.to(unit='mm')):
+                    try:
+                        got = out[item]
+                    except Exception as e:
+                        prob = f'lookup at the distance of a chopper raised {type(e).__name__}: {e}'
+                        break
+                    if len(got.subframes) != len(at.subframes) or any(not np.allclose(x.time.values, y.time.values, rtol=1e-12, atol=1e-18) or not np.allclose(x.wavelength.values, y.wavelength.values, rtol=1e-12)
+                                                                     for x, y in zip(got.subframes, at.subframes)):
+                        prob = f'lookup at the distance of a chopper ({c.distance.value} m, given in {item.unit}) does not return the frame chopped there'
+                        break
+                if prob:
+                    break
         if prob:
             fails.append({**desc, 'problem': prob})
             if len(fails) >= limit:
